@@ -1,6 +1,7 @@
 //! hvc — one binary, one sub-command per property. See /verif/DESIGN.md.
 mod props;
 mod report;
+mod sched;
 mod refs;
 
 use report::{Ctx, Tier};
@@ -30,6 +31,7 @@ fn main() {
     let cx = Ctx::new(&id, tier);
     match id.as_str() {
         "C05" => props::c05::run(cx),
+        "C08" => props::c08::run(cx),
         "C13" => props::c13::run(cx),
         _ => {
             eprintln!("hvc: no check for {}", id);
